@@ -1130,8 +1130,24 @@ fn compress_stream(cx: &mut Ctx, data: &[u8], rng: &mut Rng) -> Option<Vec<u8>> 
 
 fn run_project(cx: &mut Ctx, rng: &mut Rng) {
     let p = gen_project(rng);
-    let label = if rng.chance(1, 8) { "project-fault" } else { "project" };
-    run_project_spec(cx, &p, label, rng);
+    if rng.chance(1, 50) {
+        let big = big_multibyte_project(*rng.pick(&[932u16, 65001]), rng.range(1, 2) as usize, rng.below(4) as usize);
+        cx.rep.count("project:module-longer-than-64KiB-multibyte");
+        return run_project_spec(cx, &big, "project-big-multibyte", None, rng);
+    }
+    match rng.below(8) {
+        0 => run_project_spec(cx, &p, "project-fault", None, rng),
+        1 => {
+            // duplicate entry names (seeded change C18-m9): the module stream comes first in 2 cases out of 3
+            let kind = rng.below(2) as u8;
+            if rng.chance(2, 3) {
+                run_project_spec(cx, &p, "project-dup-wanted-first", Some((kind, false)), rng)
+            } else {
+                run_project_spec(cx, &p, "project-dup-decoy-first", Some((kind, true)), rng)
+            }
+        }
+        _ => run_project_spec(cx, &p, "project", None, rng),
+    }
 }
 
 /// regression projects: names and module text that *begin with the bytes of a byte-order mark* in the project's
@@ -1222,7 +1238,43 @@ fn corpus_projects() -> Vec<(&'static str, ProjSpec)> {
     ]
 }
 
-fn run_project_spec(cx: &mut Ctx, p: &ProjSpec, label: &str, rng: &mut Rng) {
+/// `dup`: a second directory entry with the name of the first module's stream — kind 0 an (empty) STORAGE entry
+/// (the designer storage of a UserForm has the name of the form's module stream), kind 1 another stream with other
+/// content (a same-named stream of another storage); `true` = the decoy precedes the module stream in the directory
+/// a project with one module of multi-byte text a few bytes longer than `blocks` x 64 KiB, the characters shifted by
+/// `shift` ASCII bytes so that, over the shifts 0..3, every alignment of a character relative to the 64 KiB
+/// boundaries occurs (seeded change C18-m10: text decoded in independent 64 KiB blocks)
+fn big_multibyte_project(cp: u16, blocks: usize, shift: usize) -> ProjSpec {
+    let (cb, cs): (&[u8], &str) = if cp == 932 { (&[0x82, 0xA0], "あ") } else { (&[0xE3, 0x83, 0xA2], "モ") };
+    let mut b = vec![b'x'; shift];
+    let mut t = "x".repeat(shift);
+    let target = blocks * 65536 + 40;
+    let mut k = 0usize;
+    while b.len() < target {
+        if k % 50 == 49 {
+            b.extend_from_slice(b"\r\n");
+            t.push_str("\r\n");
+            // keep the alignment of the characters: a line break is 2 bytes, the UTF-8 character 3
+            if cb.len() == 3 {
+                b.push(b' ');
+                t.push(' ');
+            }
+        } else {
+            b.extend_from_slice(cb);
+            t.push_str(cs);
+        }
+        k += 1;
+    }
+    let name = (b"Big".to_vec(), "Big".to_string());
+    ProjSpec {
+        cp,
+        compat: false,
+        refs: vec![],
+        mods: vec![ModSpec { name: name.clone(), stream: name, offset: 7, text: (b, t), private: false, readonly: false, doc: false }],
+    }
+}
+
+fn run_project_spec(cx: &mut Ctx, p: &ProjSpec, label: &str, dup: Option<(u8, bool)>, rng: &mut Rng) {
     let p: &ProjSpec = p;
     let (dir, dir_wire) = build_dir(&p, rng);
     // the Lean spec encoder (the bytes `dir_walk` is about) must lay the same project out as the same bytes
@@ -1266,16 +1318,15 @@ fn run_project_spec(cx: &mut Ctx, p: &ProjSpec, label: &str, rng: &mut Rng) {
     // streams
     let Some(dirc) = compress_stream(cx, &dir, rng) else { return };
     let mut streams: Vec<(String, Vec<u8>)> = vec![("dir".into(), dirc.clone())];
-    let mut model_streams = vec![];
+    let mut first = true;
     for m in &p.mods {
         let Some(c) = compress_stream(cx, &m.text.0, rng) else { return };
         let mut s = rng.bytes(m.offset);
         s.extend_from_slice(&c);
-        if label == "project-fault" && model_streams.is_empty() {
+        if label == "project-fault" && std::mem::take(&mut first) {
             // fault: the first module's stream ends before (or right at) its recorded text offset
             s.truncate(m.offset.saturating_sub(rng.below(3) as usize));
         }
-        model_streams.push(format!("{}={}", hex(&m.stream.0), hex(&s)));
         streams.push((m.stream.1.clone(), s));
     }
     if rng.chance(1, 2) {
@@ -1284,24 +1335,68 @@ fn run_project_spec(cx: &mut Ctx, p: &ProjSpec, label: &str, rng: &mut Rng) {
     }
     rng.shuffle(&mut streams[..]);
     let mut opts = CfbOpts::random(rng);
+    let mut storage_patch: Option<(String, usize)> = None;
+    if let Some((kind, decoy_first)) = dup {
+        let m = &p.mods[0];
+        let wanted = streams.iter().position(|(n, _)| *n == m.stream.1).unwrap();
+        let decoy = if kind == 0 {
+            vec![]
+        } else {
+            let Some(c) = compress_stream(cx, b"Attribute VB_Name = \"Decoy\"\r\n' not the module\r\n", rng) else { return };
+            let mut d = rng.bytes(m.offset);
+            d.extend_from_slice(&c);
+            d
+        };
+        streams.insert(if decoy_first { wanted } else { wanted + 1 }, (m.stream.1.clone(), decoy));
+        opts.dir_shuffle = false; // the directory order is the order of `streams`
+        if kind == 0 {
+            storage_patch = Some((m.stream.1.clone(), if decoy_first { 0 } else { 1 }));
+        }
+        cx.rep.count(&format!("project:dup-entry:{}:{}", if kind == 0 { "storage" } else { "stream" }, if decoy_first { "decoy-first" } else { "wanted-first" }));
+    }
+    // the model's view of the compound file: (encoded stream name, content) in directory order
+    let mut model_streams = vec![];
+    for (n, d) in &streams {
+        if let Some(m) = p.mods.iter().find(|m| m.stream.1 == *n) {
+            model_streams.push(format!("{}={}", hex(&m.stream.0), hex(d)));
+        }
+    }
     let mut file = write_cfb(&streams, &opts, rng);
-    // the compound-file layer is C13's subject: if calamine does not read back the streams we wrote, fall back
-    // to the plain layout and count it
-    let readback_ok = |file: &[u8]| -> bool {
-        guarded(|| {
-            let mut cur = Cursor::new(file);
-            let Ok(mut cfb) = Cfb::new(&mut cur, file.len()) else { return false };
-            streams.iter().all(|(n, d)| cfb.get_stream(n, &mut cur).map(|v| &v == d).unwrap_or(false))
-        })
-        .unwrap_or(false)
-    };
-    if !readback_ok(&file) {
-        cx.rep.count("project:cfb-layer-mismatch(C13)-fallback-to-plain-layout");
-        opts = CfbOpts::default();
-        file = write_cfb(&streams, &opts, rng);
-        if !readback_ok(&file) {
-            cx.rep.count("project:cfb-layer-mismatch(C13)-skipped");
-            return;
+    if let Some((n, nth)) = &storage_patch {
+        if !verif_harness::cfbpatch::set_entry_type(&mut file, n, *nth, 1) {
+            cx.rep.fail("model_vs_spec", "harness:storage-entry-not-found", n, "", "", "");
+        }
+    }
+    // fields MS-CFB tells readers to ignore (seeded change C18-m12: the high half of the size in version 3 files)
+    if rng.chance(1, 2) {
+        for t in verif_harness::cfbpatch::garbage_ignored_fields(&mut file, rng) {
+            cx.rep.count(&format!("project:cfb-ignored-field-garbage:{t}"));
+        }
+    }
+    // the compound-file layer is C13's subject, but a stream that is not read back as written is reported here too
+    // (never skipped): names that occur once must give their content
+    let readback = guarded(|| {
+        let mut cur = Cursor::new(&file[..]);
+        let mut cfb = match Cfb::new(&mut cur, file.len()) {
+            Ok(c) => c,
+            Err(e) => return Some(format!("Cfb::new: {}", cfb_class(&e))),
+        };
+        for (n, d) in &streams {
+            if streams.iter().filter(|(x, _)| x == n).count() > 1 {
+                continue;
+            }
+            match cfb.get_stream(n, &mut cur) {
+                Ok(v) if &v == d => {}
+                Ok(v) => return Some(format!("stream {n}: {} bytes read, {} written, contents differ", v.len(), d.len())),
+                Err(e) => return Some(format!("stream {n}: {}", cfb_class(&e))),
+            }
+        }
+        None
+    })
+    .unwrap_or_else(|_| Some("panic".into()));
+    if let Some(why) = readback {
+        if label != "project-fault" {
+            cx.rep.fail("impl_vs_spec", &format!("{label}:cfb-readback"), &format!("{label} file={}", hex(&file)), &why, "", "every stream read back as written");
         }
     }
     let imp = match guarded(|| {
@@ -1341,7 +1436,7 @@ fn run_project_spec(cx: &mut Ctx, p: &ProjSpec, label: &str, rng: &mut Rng) {
     }
     // the same project embedded in a workbook and read through `Reader::vba_project`
     let kind = *rng.pick(&["xlsm", "xlsb", "xls"]);
-    let seen = through_reader(kind, &file, &streams, rng);
+    let seen = through_reader(kind, &file, &streams, p.cp, cx.rep, rng);
     cx.rep.count(&format!("project:through-reader:{kind}"));
     if seen != expect_proj {
         cx.rep.fail("impl_vs_spec", &format!("{label}-through-{kind}"), &input, &seen, &model, &expect_proj);
@@ -1443,8 +1538,8 @@ fn zip_with_project(path: &str, bin: &[u8], rng: &mut Rng) -> Vec<u8> {
 }
 
 /// the project as `Reader::vba_project` of the given workbook kind shows it
-fn through_reader(kind: &str, bin: &[u8], streams: &[(String, Vec<u8>)], rng: &mut Rng) -> String {
-    use calamine::{Reader, Xls, Xlsb, Xlsx};
+fn through_reader(kind: &str, bin: &[u8], streams: &[(String, Vec<u8>)], project_cp: u16, rep: &mut Report, rng: &mut Rng) -> String {
+    use calamine::{Reader, Xls, XlsOptions, Xlsb, Xlsx};
     fn show<E: std::fmt::Debug>(r: Option<Result<std::borrow::Cow<'_, VbaProject>, E>>) -> String {
         match r {
             None => "no-project".into(),
@@ -1471,8 +1566,19 @@ fn through_reader(kind: &str, bin: &[u8], streams: &[(String, Vec<u8>)], rng: &m
             let mut all = streams.to_vec();
             all.push(("Workbook".into(), xls_workbook_stream().clone()));
             all.push(("_VBA_PROJECT_CUR".into(), vec![]));
-            let file = write_cfb(&all, &CfbOpts::default(), rng);
-            match Xls::new(Cursor::new(file)) {
+            let mut file = write_cfb(&all, &CfbOpts::default(), rng);
+            if rng.chance(1, 2) {
+                verif_harness::cfbpatch::garbage_ignored_fields(&mut file, rng);
+            }
+            // `force_codepage` is about the workbook's 8-bit strings; the VBA project keeps its own code page
+            // (seeded change C18-m11)
+            let mut options = XlsOptions::default();
+            if rng.chance(1, 2) {
+                let other: Vec<u16> = [1252u16, 1251, 932, 65001, 936, 1200].into_iter().filter(|c| *c != project_cp).collect();
+                options.force_codepage = Some(*rng.pick(&other));
+                rep.count("project:through-reader:xls:force_codepage-differs-from-project");
+            }
+            match Xls::new_with_options(Cursor::new(file), options) {
                 Ok(mut x) => show(x.vba_project()),
                 Err(e) => format!("open-error:{e:?}"),
             }
@@ -1643,7 +1749,7 @@ fn main() {
                 }
                 let mut crng = Rng::new(7);
                 for (name, p) in corpus_projects() {
-                    run_project_spec(&mut cx, &p, &format!("project-corpus:{name}"), &mut crng);
+                    run_project_spec(&mut cx, &p, &format!("project-corpus:{name}"), None, &mut crng);
                 }
             }
         }
@@ -1699,7 +1805,22 @@ fn main() {
         }
         let mut crng = Rng::new(7);
         for (name, p) in corpus_projects() {
-            run_project_spec(&mut cx, &p, &format!("project-corpus:{name}"), &mut crng);
+            run_project_spec(&mut cx, &p, &format!("project-corpus:{name}"), None, &mut crng);
+        }
+        // modules longer than 64 KiB / 128 KiB of multi-byte text, every alignment of the characters
+        for cp in [932u16, 65001] {
+            for blocks in [1usize, 2] {
+                for shift in 0..4 {
+                    let p = big_multibyte_project(cp, blocks, shift);
+                    run_project_spec(&mut cx, &p, &format!("project-corpus:big-multibyte-{cp}-{blocks}x64K-shift{shift}"), None, &mut crng);
+                    cx.rep.count("project:module-longer-than-64KiB-multibyte");
+                }
+            }
+        }
+        // duplicate directory-entry names, the module stream first: a storage / a stream of the same name later
+        for kind in [0u8, 1] {
+            let p = corpus_projects().remove(2).1;
+            run_project_spec(&mut cx, &p, &format!("project-corpus:dup-wanted-first-{}", if kind == 0 { "storage" } else { "stream" }), Some((kind, false)), &mut crng);
         }
         // fixed not-well-formed containers (outcome impl = model): output beyond 4096 bytes in one chunk (13-bit
         // offsets), a chunk of 8 tokens followed by one stray byte (was read as a flag byte before the D16 fix),
